@@ -78,6 +78,10 @@ type MemConn struct {
 	closed    bool
 	Peer      *MemConn
 	Label     string
+	// HoldEndsAtClose: a Write held by HoldWriteReturn also returns (with net.ErrClosed) when this end is
+	// closed, as a blocked socket write does; done is closed by Close.
+	HoldEndsAtClose bool
+	done            chan struct{}
 }
 
 // Pipe returns the two ends of a new connection. limit bounds the bytes buffered per
@@ -85,8 +89,8 @@ type MemConn struct {
 func Pipe(a, b net.Addr, limit int) (*MemConn, *MemConn) {
 	ab, ba := newHalf(), newHalf()
 	ab.limit, ba.limit = limit, limit
-	x := &MemConn{rd: ba, wr: ab, local: a, remote: b, dlChanged: make(chan struct{})}
-	y := &MemConn{rd: ab, wr: ba, local: b, remote: a, dlChanged: make(chan struct{})}
+	x := &MemConn{rd: ba, wr: ab, local: a, remote: b, dlChanged: make(chan struct{}), done: make(chan struct{})}
+	y := &MemConn{rd: ab, wr: ba, local: b, remote: a, dlChanged: make(chan struct{}), done: make(chan struct{})}
 	x.Peer, y.Peer = y, x
 	return x, y
 }
@@ -305,7 +309,16 @@ func (c *MemConn) Write(p []byte) (int, error) {
 		}
 	}
 	if hold != nil {
-		<-hold // HoldWriteReturn: data is delivered, the call returns when released
+		// HoldWriteReturn: data is delivered, the call returns when released
+		if c.HoldEndsAtClose && c.done != nil {
+			select {
+			case <-hold:
+			case <-c.done:
+				return total, net.ErrClosed
+			}
+		} else {
+			<-hold
+		}
 	}
 	return total, nil
 }
@@ -320,6 +333,9 @@ func (c *MemConn) Close() error {
 	c.closed = true
 	close(c.dlChanged)
 	c.dlChanged = make(chan struct{})
+	if c.done != nil {
+		close(c.done)
+	}
 	c.dmu.Unlock()
 	c.wr.mu.Lock()
 	c.wr.wclosed = true
